@@ -2,6 +2,7 @@ package props
 
 import (
 	"bytes"
+	"context"
 	"fmt"
 	"testing"
 	"time"
@@ -292,6 +293,19 @@ func TestC18ConnectSetup(t *testing.T) {
 				wantFail = false
 			case "dial-error":
 				o.Kind = sim.DialErr
+				// one in three: an error of the Dialer's own making which looks
+				// like the client's context ending (it raced two addresses and
+				// cancelled the loser, or ran into its own time limit); the
+				// client is open: a failed attempt like any other
+				if rapid.IntRange(0, 2).Draw(rt, "dialerContextError") == 0 {
+					o.Err = rapid.SampledFrom([]error{
+						context.Canceled,
+						fmt.Errorf("dial backup address: %w", context.Canceled),
+						context.DeadlineExceeded,
+					}).Draw(rt, "dialerError")
+					desc = fmt.Sprintf("dial-error %q", o.Err)
+					h.label("dial-error-which-looks-like-a-context-end")
+				}
 			case "identifier-load-fails":
 				// the Persistence cannot produce the client identifier right
 				// now (no data, an error): the attempt fails; no CONNECT with
